@@ -319,7 +319,11 @@ func ReplayMain(path string) int {
 			return 2
 		}
 		// the race detector kills the process that sees the race: run the case in a child
-		r, err = ExecSubprocess("", v.Property, opt, nil, v.Case)
+		if v.Params["regenerate_from_run_seed"] == "1" {
+			r, _, err = ExecSubprocessSeed("", v.Property, opt, nil, nil, v.RunSeed)
+		} else {
+			r, err = ExecSubprocess("", v.Property, opt, nil, v.Case)
+		}
 	} else {
 		r, err = e.ReplayCase(v.Case, opt, nil)
 	}
